@@ -484,6 +484,14 @@ def check(ctx):
                        "keyword arguments (force_overwrite) forwarded", "kwargs not forwarded to the saver")
     if not ok and not any(o.func == "Trajectory.save" for o in ctx.obs):
         ctx.undecided("C20-R2", fn, tr.rel, "Trajectory.save", "saver call", "call through the savers table not found")
+    # ... and the dictionary that is forwarded still holds what the caller passed
+    edits = [n for n in walk_no_nested(fn) if (isinstance(n, ast.Call) and isinstance(n.func, ast.Attribute) and dotted(n.func.value) == "kwargs" and n.func.attr in ("pop", "clear", "popitem", "update", "setdefault"))
+             or (isinstance(n, (ast.Delete, ast.Assign)) and any(isinstance(t, ast.Subscript) and dotted(t.value) == "kwargs" for t in (n.targets if hasattr(n, "targets") else [])))
+             or (isinstance(n, ast.Assign) and any(dotted(t) == "kwargs" for t in n.targets))]
+    dropped = [n for n in edits if isinstance(n, ast.Call) and n.func.attr in ("pop", "clear", "popitem")] + [n for n in edits if isinstance(n, (ast.Delete, ast.Assign))]
+    ctx.decide(not dropped, "C20-R2", dropped[0] if dropped else fn, tr.rel, "Trajectory.save", "kwargs reach the saver as given (no entry removed)", "",
+               "`%s` removes an entry from the keyword arguments before they are forwarded: the format-specific saver no longer sees the caller's force_overwrite and falls back to its default (True), "
+               "e.g. for the numbered files of the restart writers" % (src(dropped[0])[:60] if dropped else ""))
     fn = ctx.py.func("mdtraj/core/trajectory.py", "open")
     seen = False
     for n in walk_no_nested(fn):
